@@ -48,6 +48,10 @@ func (s strategy) Sign(data []byte) ([]byte, error) {
 		return ed25519.Sign(s.priv, append(append([]byte{}, data...), 'x')), nil
 	case "shortsig":
 		return ed25519.Sign(s.priv, data)[:63], nil
+	case "longsig":
+		// a valid signature followed by one more byte (a trailing newline from a signing service): 65 bytes are not an
+		// Ed25519 signature and verify under no key
+		return append(ed25519.Sign(s.priv, data), '\n'), nil
 	}
 	return ed25519.Sign(s.priv, data), nil
 }
@@ -59,7 +63,7 @@ func (s strategy) GetPublicKey() (ed25519.PublicKey, error) {
 	return s.priv.Public().(ed25519.PublicKey), nil
 }
 
-var strategies = []string{"honest", "honest", "parsed", "parsed", "wrongkey", "badsig", "otherdata", "shortsig", "error"}
+var strategies = []string{"honest", "honest", "parsed", "parsed", "wrongkey", "badsig", "otherdata", "shortsig", "longsig", "error"}
 
 // bundleFile makes a file of n bytes whose last 8 bytes state trailer (default: n).
 func bundleFile(g *mon.Rand, n int, trailer *uint64) []byte {
@@ -343,7 +347,7 @@ func run(r *mon.Run) {
 		seed, seed2 := g.Bytes(32), g.Bytes(32)
 		in := filepath.Join(scratch, fmt.Sprintf("swib-%d-%d.in", r.Shard, i))
 		os.WriteFile(in, orig, 0o644)
-		st := mon.Pick(g, []string{"honest", "honest", "wrongkey", "badsig", "otherdata", "shortsig", "error", "keyerror"})
+		st := mon.Pick(g, []string{"honest", "honest", "wrongkey", "badsig", "otherdata", "shortsig", "longsig", "error", "keyerror"})
 		scens = append(scens, scen{In: in, Out: in + ".out", Strategy: st, Seed: hex.EncodeToString(seed), Seed2: hex.EncodeToString(seed2), orig: orig,
 			pub: ed25519.NewKeyFromSeed(seed).Public().(ed25519.PublicKey), kindFile: kindFile})
 	}
